@@ -330,8 +330,14 @@ class IntegralGenerator:
                 continue
             v = attr["expression"]
 
-            # Generate code only if the expression is not already in cache
-            if not self.get_var(quadrature_rule, domain, v):
+            # Generate code only if the expression is not already in cache.
+            # A value that varies under this rule must not be taken from the
+            # piecewise scope, where another rule may have stored it.
+            if mode == "varying":
+                cached = self.scopes[(domain, quadrature_rule)].get(v)
+            else:
+                cached = self.get_var(quadrature_rule, domain, v)
+            if not cached:
                 if v._ufl_is_literal_:
                     vaccess = L.ufl_to_lnodes(v)
                 elif mt := attr.get("mt"):
